@@ -1,6 +1,8 @@
 package twins
 
 import (
+	"time"
+	"context"
 	"fmt"
 	"sort"
 	"strings"
@@ -430,6 +432,85 @@ func c05Recovery(cons string, n int, seed int64, prefixSteps int) (*c05Rec, erro
 	return res, nil
 }
 
+// c05RealTimers: the replicas' own view timers (not the scripts' TimeoutEvents) must bring a quorum back after a
+// loss that outlasts several timeouts. Four honest replicas with a real 20 ms view timer; phase 1: every message
+// is lost for 8 timer periods (each replica gives up on view 1 repeatedly); phase 2: the network is synchronous.
+// A replica whose timer is not running any more never re-sends its timeout, no certificate forms, and nobody
+// commits. Returns the number of blocks each replica committed in phase 2 and how many timeout messages each sent
+// in phase 1.
+func c05RealTimers(cons string, seed int64) (commits map[string]int, sentInLoss map[string]int, waited time.Duration, err error) {
+	const period = 20 * time.Millisecond
+	spec := wSpec{consensus: cons, n: 4, seed: seed, timer: period}
+	for i := 0; i < 4000; i++ {
+		spec.leaders = append(spec.leaders, hotstuff.ID(i%4+1))
+	}
+	w, err := newWorld(spec)
+	if err != nil {
+		return nil, nil, 0, err
+	}
+	for _, id := range w.order {
+		w.partition[id] = 0
+	}
+	ctx, cancel := context.WithCancel(context.Background())
+	defer cancel()
+	var live []*wNode
+	for _, id := range w.order {
+		nd := w.nodes[id]
+		live = append(live, nd)
+		nd.sync.Start(ctx)
+		w.drain(nd)
+	}
+	commits, sentInLoss = map[string]int{}, map[string]int{}
+	// phase 1: total loss
+	end1 := time.Now().Add(8 * period)
+	for time.Now().Before(end1) {
+		for _, nd := range live {
+			w.drain(nd)
+		}
+		for _, m := range w.pending {
+			if _, ok := m.payload.(hotstuff.TimeoutMsg); ok {
+				sentInLoss[m.from.String()]++
+			}
+		}
+		w.pending = nil
+		time.Sleep(time.Millisecond)
+	}
+	base := map[NodeID]int{}
+	for _, nd := range live {
+		base[nd.id] = len(nd.commits)
+	}
+	// phase 2: synchrony, until everybody has committed something new (or 6 s have passed)
+	start := time.Now()
+	for time.Since(start) < 6*time.Second {
+		for guard := 0; len(w.pending) > 0 && guard < 100000; guard++ {
+			m := w.pending[0]
+			w.pending = w.pending[1:]
+			to := w.nodes[m.to]
+			if p, ok := m.payload.(hotstuff.ProposeMsg); ok {
+				w.regProposal(&p)
+			}
+			to.eventLoop.AddEvent(m.payload)
+			w.drain(to)
+		}
+		all := true
+		for _, nd := range live {
+			w.drain(nd)
+			if len(nd.commits) <= base[nd.id] {
+				all = false
+			}
+		}
+		if all {
+			break
+		}
+		time.Sleep(time.Millisecond)
+	}
+	waited = time.Since(start)
+	for _, nd := range live {
+		commits[nd.id.String()] = len(nd.commits) - base[nd.id]
+	}
+	return commits, sentInLoss, waited, nil
+}
+
 func TestVerifC05(t *testing.T) {
 	v := verifNew("C05")
 	sh := v.Stream("hist", "hist_mismatches", 12)
@@ -549,6 +630,30 @@ func TestVerifC05(t *testing.T) {
 					}
 				}
 			}
+		}
+	}
+	// 4. the replicas' own view timers: loss outlasting several timeouts, then synchrony (chained and simple; the
+	// fasthotstuff liveness findings are reported by the fault-free runs above)
+	for _, cons := range []string{"chainedhotstuff", "simplehotstuff"} {
+		commits, sent, waited, err := c05RealTimers(cons, v.seed)
+		if err != nil {
+			t.Fatalf("world: %v", err)
+		}
+		meta := map[string]any{"kind": "real-timers", "consensus": cons, "n": 4, "timer_ms": 20, "loss_periods": 8,
+			"commits_after_heal": commits, "timeouts_sent_during_loss": sent, "waited_ms": waited.Milliseconds()}
+		stuck := ""
+		for id, c := range commits {
+			if c == 0 {
+				stuck += id + " "
+			}
+		}
+		v.Seen("real-timers/"+cons, true, meta)
+		v.Count("real_timers_" + cons)
+		if stuck != "" {
+			v.Oracle(false, "liveness:no-commit-after-loss-with-real-view-timers:"+cons,
+				fmt.Sprintf("after a loss of 8 timer periods and 6 s of synchrony these replicas committed nothing new: %s(timeout messages sent during the loss: %v)", stuck, sent), meta)
+		} else {
+			v.Oracle(true, "", "", nil)
 		}
 	}
 	v.Close("fault-free synchronous runs (3 rulesets x n in {4,7} x fixed/round-robin/scripted leaders x run lengths) and random partition/loss/crash prefixes followed by a synchronous suffix among the live replicas; non-trivial = at least 4 views / 4 honest votes; distinct by configuration and seed")
